@@ -19,6 +19,7 @@ macro_rules! registry {
 registry! {
     "C01" => c01,
     "C02" => c02,
+    "C04" => c04,
     "C05" => c05,
     "C10" => c10,
     "C11" => c11,
@@ -28,6 +29,7 @@ registry! {
     "C19" => c19,
     "C23" => c23,
     "C24" => c24,
+    "C34" => c34,
     "C36" => c36,
     "C37" => c37,
     "C38" => c38,
